@@ -1,3 +1,234 @@
+import Cello.Str
+import CelloGen.Str
 import Driver.Common
-/- driver for engine `str` — stub, replaced when the engine is built -/
-def main (_args : List String) : IO Unit := IO.println "O not-implemented"
+/- driver for engine `str` (C16): interprets the op files of harness/h_str.c on the model `Cello.Str` with the
+   parameters regenerated from src/String.c (`CelloGen.Str.params`) and the junk byte 0xA5 the harness's `v_realloc`
+   uses; prints the same `O` lines (dump of the whole allocation after every op), and after every mutation an `R`
+   line: does the model's text equal the specification's (`Spec.step` on the abstract string kept beside it), is the
+   state well-formed, were all accesses in bounds. -/
+open Cello.Str
+
+def P : Params := CelloGen.Str.params
+def J : Nat → Byte := fun _ => 0xA5
+
+def maxT : Nat := 16384
+
+def hexVal (c : Char) : Option Nat :=
+  if '0' ≤ c && c ≤ '9' then some (c.toNat - 48) else if 'a' ≤ c && c ≤ 'f' then some (c.toNat - 87) else none
+
+def dehexList : List Char → Option (List Byte)
+  | [] => some []
+  | a :: b :: t => do
+    let x ← hexVal a; let y ← hexVal b
+    let v := x * 16 + y
+    if v = 0 then none
+    let r ← dehexList t
+    pure (UInt8.ofNat v :: r)
+  | _ => none
+
+/-- a text token: `-` = empty, otherwise lowercase hex without 00 bytes -/
+def dehex (t : String) : Option (List Byte) :=
+  if t = "-" then some []
+  else if t.length = 0 || t.length % 2 = 1 || t.length / 2 ≥ maxT then none
+  else dehexList t.toList
+
+def num (t : String) : Option Nat :=
+  if t.isEmpty || !(t.all Char.isDigit) then none else t.toNat?
+
+def objIx (t : String) : Option Nat := do
+  let v ← num t
+  if v < 64 then some v else none
+
+def preview (l : List Byte) : String :=
+  if l.isEmpty then "-" else hexOf (l.take 16) ++ (if l.length > 16 then ".." else "")
+
+structure World where
+  objs : Array (Option Str) := Array.replicate 64 none
+  spec : Array (Option (List Byte)) := Array.replicate 64 none
+  nMut : Nat := 0
+  nRaised : Nat := 0
+  nRemFound : Nat := 0
+  nGrow : Nat := 0
+  nShrink : Nat := 0
+  nFmtIn : Nat := 0
+  nFmtOut : Nat := 0
+  nStale : Nat := 0      -- states whose allocation is larger than the text + terminator
+  nDisagree : Nat := 0
+
+def World.get (w : World) (k : Nat) : Option Str := (w.objs[k]?).join
+def World.getSpec (w : World) (k : Nat) : List Byte := ((w.spec[k]?).join).getD []
+
+def dumpLine (name : String) (k : Nat) (outcome : String) (s : Str) : String :=
+  let t := s.abs
+  s!"O {name} {k} {outcome} len={t.length} cap={s.cap} s={preview t} fnv={hex64 (fnv64 s.buf)}"
+
+/-- record the result of a mutation: O line, R line, statistics -/
+def World.commit (w : World) (name : String) (k : Nat) (st : Str) (outcome : String) (safe : Bool)
+    (specText : List Byte) : IO World := do
+  let outcome := if safe then outcome else "UB(out-of-bounds access)"
+  IO.println (dumpLine name k outcome st)
+  let agree := st.abs == specText && st.wfb && safe
+  IO.println (if agree then s!"R {name} {k} agree" else
+    s!"R {name} {k} DISAGREE model={hexOf st.abs} spec={hexOf specText} wf={st.wfb} safe={safe}")
+  return { w with objs := w.objs.set! k (some st), spec := w.spec.set! k (some specText), nMut := w.nMut + 1,
+                  nStale := w.nStale + (if st.cap > st.abs.length + 1 then 1 else 0),
+                  nDisagree := w.nDisagree + (if agree then 0 else 1) }
+
+def outcomeStr : Outcome → String
+  | .ok _ => "ok"
+  | .raised .ValueError => "ValueError"
+
+inductive Frag where
+  | lit (t : List Byte) | str (t : List Byte) | shown (t : List Byte)
+
+/-- parse the fragments of a `print` op exactly as the harness validates them -/
+def parseFrags (toks : List String) : Option (List Frag) :=
+  let rec go (toks : List String) (prevLit : Bool) (nargs : Nat) (fl : Nat) (acc : List Frag) : Option (List Frag) :=
+    match toks with
+    | [] => some acc.reverse
+    | t :: rest =>
+      match t.toList with
+      | kind :: body =>
+        match dehex (String.ofList body) with
+        | none => none
+        | some x =>
+          if kind = 'L' then
+            if x.contains 0x25 || x.isEmpty || prevLit || fl + x.length ≥ maxT then none
+            else go rest true nargs (fl + x.length) (.lit x :: acc)
+          else if kind = 'S' || kind = 'Q' then
+            if nargs = 4 || fl + 2 ≥ maxT then none
+            else go rest false (nargs + 1) (fl + 2) ((if kind = 'S' then Frag.str x else Frag.shown x) :: acc)
+          else none
+      | [] => none
+  go toks false 0 0 []
+
+/-- the `format_to` calls `print_to_with` makes for these fragments -/
+def fragCalls (fs : List Frag) : List (List Byte) :=
+  fs.flatMap fun
+    | .lit t => [t]
+    | .str t => [t]
+    | .shown t => showFrags t
+
+def bad : IO Unit := IO.println "O bad-op"
+
+def stepOp (w : World) (toks : List String) : IO World := do
+  match toks with
+  | "alias" :: rest =>
+    match rest with
+    | [_, t] => if (dehex t).isSome then return w else bad; return w
+    | _ => bad; return w
+  | op :: kt :: rest =>
+    let some k := objIx kt | do bad; return w
+    let live := w.get k
+    match op, rest, live with
+    | "new", [t], none =>
+      let some x := dehex t | do bad; return w
+      let r := new P J (some x)
+      w.commit "new" k r.st "ok" r.safe x
+    | "new0", [], none =>
+      let r := new P J none
+      w.commit "new0" k r.st "ok" r.safe []
+    | "copy", [jt], none =>
+      let some j := objIx jt | do bad; return w
+      let some sj := w.get j | do bad; return w
+      if j = k then bad; return w
+      let r := assign P J ⟨[]⟩ sj.abs          -- assign(alloc_raw(String), src): `val` is NULL in the fresh object
+      w.commit "copy" k r.st "ok" r.safe (w.getSpec j)
+    | "del", [], some _ =>
+      IO.println s!"O del {k} ok"
+      return { w with objs := w.objs.set! k none, spec := w.spec.set! k none }
+    | "assign", [t], some s =>
+      let some x := dehex t | do bad; return w
+      let r := assign P J s x
+      w.commit op k r.st (outcomeStr r.out) r.safe (Spec.step (w.getSpec k) (.assign x))
+    | "concat", [t], some s | "append", [t], some s =>
+      let some x := dehex t | do bad; return w
+      let r := concat P J s x
+      w.commit op k r.st (outcomeStr r.out) r.safe (Spec.step (w.getSpec k) (.concat x))
+    | "assigns", [jt], some s =>
+      let some j := objIx jt | do bad; return w
+      let some sj := w.get j | do bad; return w
+      if j = k then bad; return w
+      let r := assign P J s sj.abs
+      w.commit op k r.st (outcomeStr r.out) r.safe (Spec.step (w.getSpec k) (.assign (w.getSpec j)))
+    | "concats", [jt], some s =>
+      let some j := objIx jt | do bad; return w
+      let some sj := w.get j | do bad; return w
+      if j = k then bad; return w
+      let r := concat P J s sj.abs
+      w.commit op k r.st (outcomeStr r.out) r.safe (Spec.step (w.getSpec k) (.concat (w.getSpec j)))
+    | "resize", [nt], some s =>
+      let some n := num nt | do bad; return w
+      if n > 1000000 then bad; return w
+      let r := resize P J s n
+      let w := if n > s.abs.length then { w with nGrow := w.nGrow + 1 } else { w with nShrink := w.nShrink + 1 }
+      w.commit op k r.st (outcomeStr r.out) r.safe (Spec.step (w.getSpec k) (.resize n))
+    | "clear", [], some s =>
+      let r := clear P J s
+      w.commit op k r.st (outcomeStr r.out) r.safe (Spec.step (w.getSpec k) .clear)
+    | "rem", [t], some s =>
+      let some x := dehex t | do bad; return w
+      let r := rem P s x
+      let w := if r.out = .ok 0 then { w with nRemFound := w.nRemFound + 1 } else { w with nRaised := w.nRaised + 1 }
+      w.commit op k r.st (outcomeStr r.out) r.safe (Spec.step (w.getSpec k) (.rem x))
+    | "rems", [jt], some s =>
+      let some j := objIx jt | do bad; return w
+      let some sj := w.get j | do bad; return w
+      if j = k then bad; return w
+      let r := rem P s sj.abs
+      let w := if r.out = .ok 0 then { w with nRemFound := w.nRemFound + 1 } else { w with nRaised := w.nRaised + 1 }
+      w.commit op k r.st (outcomeStr r.out) r.safe (Spec.step (w.getSpec k) (.rem (w.getSpec j)))
+    | "fmt", [pt, t], some s | "fmtl", [pt, t], some s =>
+      let some pos := num pt | do bad; return w
+      if pos > 1000000 then bad; return w
+      let some x := dehex t | do bad; return w
+      if op = "fmtl" && x.contains 0x25 then bad; return w
+      let r := formatTo P J s pos x
+      let w := if pos ≤ s.abs.length then { w with nFmtIn := w.nFmtIn + 1 } else { w with nFmtOut := w.nFmtOut + 1 }
+      let oc := match r.out with | .ok n => s!"ret={n}" | o => outcomeStr o
+      w.commit op k r.st oc r.safe (Spec.step (w.getSpec k) (.format pos x))
+    | "print", pt :: f1 :: fr, some s =>
+      let some pos := num pt | do bad; return w
+      if pos > 1000000 then bad; return w
+      let some fs := parseFrags (f1 :: fr) | do bad; return w
+      let calls := fragCalls fs
+      let (st, ret, lg) := printTo P J s pos calls
+      let a := w.getSpec k
+      let specText := if pos ≤ a.length then a.take pos ++ calls.flatten else a
+      let w := if pos ≤ s.abs.length then { w with nFmtIn := w.nFmtIn + 1 } else { w with nFmtOut := w.nFmtOut + 1 }
+      w.commit op k st s!"ret={ret}" (lg.all Acc.inBounds) specText
+    | "len", [], some s => IO.println s!"O len {k} {len s}"; return w
+    | "cstr", [], some s =>
+      IO.println s!"O cstr {k} n={(cstr s).length} fnv={hex64 (fnv64 (cstr s))}"; return w
+    | "cmp", [t], some s =>
+      let some x := dehex t | do bad; return w
+      IO.println s!"O cmp {k} {cmp s x}"; return w
+    | "eq", [t], some s =>
+      let some x := dehex t | do bad; return w
+      IO.println s!"O eq {k} {if eq s x then 1 else 0}"; return w
+    | "mem", [t], some s =>
+      let some x := dehex t | do bad; return w
+      IO.println s!"O mem {k} {if mem s x then 1 else 0}"; return w
+    | "cmps", [jt], some s =>
+      let some j := objIx jt | do bad; return w
+      let some sj := w.get j | do bad; return w
+      if j = k then bad; return w
+      IO.println s!"O cmps {k} {cmp s sj.abs}"; return w
+    | "hash", [], some s =>
+      -- value-only dependence: the bytes hashed are exactly the abstract string
+      let same := hash id s == w.getSpec k
+      IO.println s!"O hash {k} {if same then "same" else "diff"}"; return w
+    | _, _, _ => bad; return w
+  | _ => bad; return w
+
+def main (args : List String) : IO Unit := do
+  let lines ← Driver.inputLines args
+  let mut w : World := {}
+  let mut nOps := 0
+  for l in lines do
+    if Driver.isSkippable l then continue
+    let toks := Driver.words l
+    if toks.isEmpty then continue
+    nOps := nOps + 1
+    w ← stepOp w toks
+  IO.println s!"S ops={nOps} mutations={w.nMut} raised={w.nRaised} remFound={w.nRemFound} grow={w.nGrow} shrink={w.nShrink} fmtIn={w.nFmtIn} fmtOut={w.nFmtOut} slack={w.nStale} disagree={w.nDisagree}"
